@@ -4,6 +4,7 @@ CONSTANTS
   DBs2 = {}
   RPs = {"r1", "r2", "autogen"}
   VirtOrgs = {1}
+  CollideOrgs = {1}
   MaxOps = 5
   MaxMaps = 3
   KeepObs = TRUE
